@@ -151,7 +151,10 @@ def main(args):
     run = core.Run("C13", args.tier, "exploration", "./check C13 --tier " + args.tier)
     # E1 (proof part): the operator signature table, on the real functions, for every operator / arity / operand-kind tuple
     from vlib import pool
-    pool.run_targets(run, "contracts.typing", ["_type_check_operation", "positional", "dispatch_and_physical_types"])
+    pool.run_targets(run, "contracts.typing", ["_type_check_operation", "positional", "dispatch_and_physical_types", "reference_types"])
+    run.function("compiler.front_end.type_check.{_type_check_local_reference,_type_check_constant_reference}",
+                 "pyvc: a local reference takes the type of the object of its LAST path element (parameter / virtual: definition checked first / array: opaque / physical); a constant reference to an enum value has the enum's type, "
+                 "to a virtual field its definition's type, to a physical field one error with a note")
     run.function("compiler.front_end.type_check.{_type_check_expression,unbounded_expression_type_for_physical_type,_set_expression_type_from_physical_type_reference,_annotate_parameter_type}",
                  "pyvc: every expression variety goes to exactly its checker, typed expressions are left alone; physical definitions map to integer / boolean (prelude Flag only) / enumeration named by the definition itself / opaque; array-typed parameters give one error")
     for ob in run.obligations:
